@@ -16,6 +16,7 @@ RULE = (
     'strategy) fantasies, depth 1..3 (fantasies of fantasies), fast_pred_var, detach_test_caches, NaN-free, seed); distinct = cell without seed; '
     'non-trivial iff the fantasy posterior differs from the source posterior by > 1e-3'
     '; pass 5: sources beyond max_cholesky_size (iterative solves, rank-8 Lanczos roots); sibling fantasies of one source examined after one another (cached, deep copy, recomputed, own fantasy, stored noise)'
+    '; pass 6: refused get_fantasy_model calls leave the source untouched; fantasies of two-input exact GPs; rank>0 multitask noise; iterative cells tighten eval_cg_tolerance only'
 )
 REQUIRED = ["fantasy_mean", "fantasy_covar", "fantasy_mean_cache", "fantasy_root_decomposition", "fantasy_root_inv_decomposition", "source_untouched", "monitor:get_fantasy_strategy"]
 ASSUMPTIONS = ["noise of the concatenated data is assembled from public parameters (sigma^2; stored fixed noise followed by the call-time fantasy noise [+ learned sigma^2])"]
